@@ -4,7 +4,7 @@ import ast
 from ..model import walk_own, dotted
 from .. import q
 from .entryiface import r04_1, r05_1
-from .timelimits import Scan, r05_2, r05_3, r05_5
+from .timelimits import Scan, r05_2, r05_3, r05_5, r05_6
 from .shared import r08_1
 
 
@@ -64,12 +64,27 @@ def r05_4(ctx):
     kill9 = [n for (n, c) in q.calls(tk, ('os.killpg', '_kill', 'os.kill')) if 'SIGKILL' in ast.unparse(c)]
     q.need(term, '_trywaitkill sends no TERM')
     q.need(kill9, '_trywaitkill sends no KILL')
+    def resolved(e):
+        return q.expand(tk, e)
+    # every OS call that fails for a process that is already gone must be inside try/except OSError:
+    # an exception escaping here kills the scanner thread and, through PoolThread.run, the host
+    for (n, c) in q.calls(tk, ('os.getpgid', 'os.killpg', '_kill', 'os.kill', worker + '.terminate')):
+        ok = q.protected_by(tk, c, ['OSError', 'ProcessLookupError']) is not None
+        ctx.ob('R05.4', '_trywaitkill:%s-tolerates-vanished-process' % tk.callee(c).split('.')[-1], ok, tk, c,
+               '`%s` is inside try/except OSError' % ast.unparse(c)[:50] if ok else
+               '`%s` can raise ProcessLookupError for a worker that already exited; nothing catches it, the '
+               'scanner thread dies and takes the host with it' % ast.unparse(c)[:50])
     for (n, c) in q.calls(tk, ('os.killpg', '_kill', 'os.kill')):
-        tgt = ast.unparse(c.args[0])
+        tgt = resolved(c.args[0])
         ok = tgt in (worker + '.pid', 'os.getpgid(%s.pid)' % worker)
         ctx.ob('R05.4', '_trywaitkill:signals-the-given-worker', ok, tk, c, 'signal target = %s' % tgt)
         if 'getpgid' in tgt:
-            ok = q.has_guard(tk, n, q.eq_text('os.getpgid(%s.pid)' % worker, worker + '.pid'), True)
+            want = {'os.getpgid(%s.pid)' % worker, worker + '.pid'}
+            ok = False
+            for (te, pol, tn) in c2.guards(n):
+                if pol and isinstance(te, ast.Compare) and len(te.ops) == 1 and isinstance(te.ops[0], ast.Eq):
+                    if {q.expand(tk, te.left), q.expand(tk, te.comparators[0])} == want:
+                        ok = True
             ctx.ob('R05.4', '_trywaitkill:group-kill-only-for-group-leader', ok, tk, c,
                    'killpg only when the worker leads its own process group')
     exited = q.outcome_edges(tk, lambda t: t.startswith(worker + '._popen.wait('), True)
@@ -98,6 +113,7 @@ def run(ctx):
     r05_3(ctx, 'R05.3')
     r05_4(ctx)
     r05_5(ctx, 'R05.5')
+    r05_6(ctx, 'R05.6')
     r08_1(ctx)
     # replacement of the killed worker: the supervision tick restarts the missing number
     from .c09 import r09_1, r09_3
